@@ -462,6 +462,29 @@ def run(rep, drv):
 		r2 = H.replace_dict_null_keys(copy.deepcopy(nested))
 		if r2 != {'1': {None: 3, '2.5': 4, 'a': {'-7': 1}}, None: 5, 'x': 6}:
 			diff('string-keys', 'replace_dict_null_keys wrong: %r' % (r2,), {}, repr(r2), None, True)
+		# random nested dicts (the shapes JSON produces for dicts keyed by None or by numbers at several levels): every level is rewritten, whatever
+		# the key above it, and the result is a NEW dict at every level ("Return a new dict. Works recursively")
+		def gen_nested(depth):
+			d_ = {}
+			for key_ in rng.sample(['null', '1', '-7', '2.5', 'a', 'x', '10', '0'], rng.randint(1, 4)):
+				d_[key_] = gen_nested(depth - 1) if depth > 0 and rng.random() < .6 else rng.choice([0, 1.5, [0, 0], 'null', None])
+			return d_
+		ref_null = lambda d_: {(None if k_ == 'null' else k_): (ref_null(v_) if type(v_) is dict else v_) for k_, v_ in d_.items()}
+		num_key = lambda k_: (int(float(k_)) if float(k_) == int(float(k_)) else float(k_)) if k_ not in ('null', 'a', 'x') else k_
+		ref_num = lambda d_: {num_key(k_): (ref_num(v_) if type(v_) is dict else v_) for k_, v_ in d_.items()}
+		def shares(a_, b_):
+			return a_ is b_ or (type(a_) is dict and type(b_) is dict and any(shares(va_, vb_) for va_ in a_.values() for vb_ in b_.values() if type(va_) is dict and type(vb_) is dict))
+		for rep_ in range(6):
+			nd_ = gen_nested(3); keep_ = copy.deepcopy(nd_)
+			for fn_, ref_ in ((H.replace_dict_null_keys, ref_null), (H.replace_dict_numeric_string_keys, ref_num)):
+				got_ = call(fn_, nd_)
+				rep.case('string-keys', {'dict': repr(nd_), 'fn': fn_.__name__})
+				if got_ != ref_(keep_) or [type(k_) for k_ in got_] != [type(k_) for k_ in ref_(keep_)]:
+					diff('string-keys', '%s(%r) = %r, documented (recursive) result %r' % (fn_.__name__, keep_, got_, ref_(keep_)), {}, repr(got_), None, True)
+				elif shares(got_, nd_):
+					diff('string-keys', '%s(%r): the result shares a nested dict with its argument ("return a new dict", recursively)' % (fn_.__name__, keep_), {}, None, None, True)
+				if nd_ != keep_:
+					diff('string-keys', '%s changed its argument' % fn_.__name__, {}, None, None, True)
 		vals = [(3, True), (3.0, True), (3.5, False), ('3', False), (None, False), (np.float64(2.0), True)]
 		for v, w in vals:
 			if H.is_integer(v) != w:
